@@ -307,3 +307,19 @@ def norm_text(node):
         return " ".join(ast.unparse(node).split())
     except Exception:  # pragma: no cover
         return "<?>"
+
+
+def public_qual(q):
+    """'module::Class.method.inner.fn' -> 'module::Class.method': findings and discharge tables are keyed by the enclosing
+    public function, so that renaming a local helper does not change a key."""
+    if "::" not in q:
+        return q
+    mod, _, rest = q.partition("::")
+    parts = rest.split(".")
+    # class components start with an upper-case letter in this repo; keep them plus the first function component
+    out = []
+    for p_ in parts:
+        out.append(p_)
+        if not (p_[:1].isupper()) or p_.startswith("<"):
+            break
+    return mod + "::" + ".".join(out)
